@@ -18,6 +18,10 @@ type Effect struct {
 	In     ssa.Instruction
 	Fn     *ssa.Function
 	Chain  []string // call chain from the queried entry point (filled by closure)
+	// Late: a raw-slot access whose key is a parameter of the enclosing (helper) function;
+	// the region is resolved by closure() once the caller's argument is substituted
+	Late bool
+	Recv *Term
 }
 
 func (e Effect) String() string {
@@ -213,6 +217,13 @@ func (p *Prog) storeUseOK(v ssa.Value, r ssa.Instruction) string {
 		return ""
 	case *ssa.DebugRef:
 		return ""
+	case *ssa.Return:
+		// a NEW straight-line accessor (`func (k Keeper) xStore(ctx) prefix.Store`) hands the
+		// store to its callers, where the call is replaced by the returned term
+		// (inlineHelper) and every use is judged by these same rules
+		if fn := r.Parent(); p.newHelper(fn) && len(fn.Blocks) == 1 {
+			return ""
+		}
 	}
 	return fmt.Sprintf("store value used by %T", r)
 }
@@ -264,11 +275,15 @@ func (p *Prog) classifyCall(x *TX, s *Summary, in ssa.Instruction, c *ssa.CallCo
 					key = arg(0)
 				}
 				region, ok := p.regionOf(recv, key)
+				late := false
+				if !ok && isAdapterTerm(recv) && key != nil && key.hasParam() {
+					region, ok, late = "raw:?"+key.String(), true, true
+				}
 				if !ok {
 					add(Effect{Kind: "ESCAPE", Region: "unresolved store region for " + recv.String(), In: in})
 					return
 				}
-				e := Effect{Kind: kind, Region: region, Key: key, In: in}
+				e := Effect{Kind: kind, Region: region, Key: key, In: in, Late: late, Recv: recv}
 				if kind == "W" {
 					e.Val = arg(1)
 				}
@@ -452,6 +467,16 @@ func substTerm(t *Term, env []*Term) *Term {
 	for _, a := range t.A {
 		nt.A = append(nt.A, substTerm(a, env))
 	}
+	// substitution can disturb the canonical operand order of commutative forms
+	if nt.Op == "bin" && len(nt.F) == 1 && nt.F[0] == "comm" && len(nt.A) == 2 {
+		nt.A[0], nt.A[1] = commOrder(nt.A[0], nt.A[1])
+	}
+	if nt.Op == "phi" {
+		return phiOf(nt.A)
+	}
+	if nt.Op == "call" && commutative[nt.S] && len(nt.A) == 2 && nt.A[1].String() < nt.A[0].String() {
+		nt.A[0], nt.A[1] = nt.A[1], nt.A[0]
+	}
 	if nt.Op == "field" {
 		base := nt.A[0]
 		if base.Op == "addr" {
@@ -490,6 +515,14 @@ func (p *Prog) closure(fn *ssa.Function) []Effect {
 			if env != nil {
 				ne.Key = substTerm(e.Key, env)
 				ne.Val = substTerm(e.Val, env)
+				if ne.Late {
+					if region, ok := p.regionOf(ne.Recv, ne.Key); ok {
+						ne.Region, ne.Late = region, false
+					}
+				}
+			}
+			if ne.Late {
+				ne = Effect{Kind: "ESCAPE", Region: "unresolved store region for " + ne.Recv.String() + " key " + ne.Key.String(), In: e.In, Fn: e.Fn}
 			}
 			ne.Chain = append(append([]string(nil), chain...), funcName(f))
 			out = append(out, ne)
